@@ -268,7 +268,7 @@ def run(ctx):
         ctx.check(sides["builder"] == sides["parser"], "cross-field-refusals-agree:%s" % kind,
                   "the %s stage refuses its field for how it sits with other parts of the position in one constructor only: parser looks at %s, builder at %s"
                   % (kind, sorted(sides["parser"]), sorted(sides["builder"])), sample={"field": kind, "looks at": sorted(sides["parser"])})
-    ctx.floor("fields compared for cross-field refusals", ncmp, 2)
+    ctx.floor("fields compared for cross-field refusals", ncmp, 1)
     ctx.rule("from_board-total")
     fb = f.need(BUILDER + "::from_board")
     ps = sym.SymExec(f, fb).run()
